@@ -723,6 +723,25 @@ void vector_roundtrip()
       wis >> z2;
       if (wis.fail() || !(z2 == v))
         vf::violation(e + "/" + what + "/wide-roundtrip", "mismatch", "text " + os.str());
+      // ONE read-write stream used as a queue: write a value, read it back to the present end, write the next, read it.
+      // Reading a value consumes exactly its text - the closing parenthesis is the last character touched - so the
+      // stream is still good() for the next write (a reader that looks behind the value hits the end and sets eofbit)
+      {
+        std::stringstream q;
+        bool good = true;
+        for (int k = 0; k < 3 && good; ++k)
+        {
+          q << v;
+          auto back = zero;
+          q >> back;
+          good = !q.fail() && back == v && q.good();
+        }
+        VF_COUNT("vector/one-stream-as-a-queue");
+        if (!good)
+          vf::violation(e + "/" + what + "/write-read-write-read-on-one-stream", "mismatch",
+                        "text " + os.str() + ": after reading a value back to the end of the stream the stream is " + (q.eof() ? "at eof" : q.fail() ? "failed" : "good") +
+                            " (a later write / read pair is lost)");
+      }
       // several values in ONE stream, as streams are used: separated by a blank, a line break, a tab, or padded by a
       // field width (the padding lands in front of the value); every one of them reads back
       {
